@@ -863,10 +863,14 @@ func (cl *collector) define(v ssa.Value, depth int) {
 		default:
 			if callee := x.Call.StaticCallee(); callee != nil && p.c.inModule(callee) {
 				cl.calleeResult(x, callee, -1, depth)
+				cl.g7CallFacts(x, x, 0, t, depth) // ip_g7.go: result >= argument for helpers that only add to a parameter
 			}
 		}
+	case *ssa.Parameter:
+		cl.g7ParamLower(x, t) // ip_g7.go: 0 <= parameter when that holds at every call site
 	case *ssa.Extract:
 		if call, ok := x.Tuple.(*ssa.Call); ok {
+			cl.g7CallFacts(x, call, x.Index, t, depth)
 			name := callName(&call.Call)
 			// io.Reader contract: 0 <= n <= len(p)
 			if x.Index == 0 && (strings.HasSuffix(name, ".Read") || name == "io.ReadFull" || name == "io.ReadAtLeast") && isIntType(x.Type()) {
@@ -987,6 +991,9 @@ func phiLowerBounds(fn *ssa.Function) map[*ssa.Phi]int64 {
 				return 0
 			}
 		}
+		if a := g7GrowsFrom(v); a != nil {
+			return edgeLo(a, depth+1) // ip_g7.go: result of a helper that only adds to the argument a
+		}
 		return -inf
 	}
 	for round := 0; round < 60; round++ {
@@ -1024,6 +1031,7 @@ func (cl *collector) inductive(x *ssa.Phi, depth int) {
 	if l, ok := phiLowerBounds(x.Parent())[x]; ok && l > -inf && l < inf {
 		f.addLE(term{"", l}, t, 0)
 	}
+	cl.g7PhiRoot(x, t, depth) // ip_g7.go: a web of phis and non-negative steps over one start value
 	// counter started from one value e0 and only stepped in one direction: bounded by e0
 	{
 		var start ssa.Value
